@@ -30,6 +30,7 @@ ObsStatus(c, n) == c.st
 INSTANCE TableProps WITH LCP <- LCP160, RStatus <- ObsStatus
 TS == INSTANCE TokenStore WITH ROT <- 600000
 PS == INSTANCE PeerStore WITH CAP <- 500, TTL <- 86400000
+LC == INSTANCE LookupCore WITH Closer <- Closer160, ALPHA <- 4, BETA <- 3, ANN <- 8, MAXC <- 8
 
 VARIABLES l, S, G
 vars == <<l, S, G>>
@@ -52,15 +53,17 @@ NodeInit(e) ==
      lk |-> <<>>, pendSearch |-> <<>>, sidAid |-> <<>>, closed |-> <<>>, yields |-> <<>>, started |-> <<>>,
      rounds |-> <<>>, succ |-> <<>>,
      answered |-> FALSE, waits |-> <<>>, qsent |-> 0, started_at |-> now, bootstate |-> "AwaitStart",
-     annClosed |-> <<>>, lastSentTo |-> <<>>, samples |-> <<>>, lastAns |-> <<>>, lastNamed |-> <<>>, qsince |-> <<>>, admitted |-> {}]
+     annClosed |-> <<>>, lastSentTo |-> <<>>, samples |-> <<>>, lastAns |-> <<>>, lastNamed |-> <<>>, qsince |-> <<>>, admitted |-> {}, mechn |-> 0]
 
-Init == l = 1 /\ S = <<>> /\ G = [universe |-> <<>>, plan |-> <<>>, coop |-> FALSE, twins |-> <<>>, responsive |-> <<>>, searching |-> <<>>]
+Init == l = 1 /\ S = <<>> /\ G = [universe |-> <<>>, plan |-> <<>>, coop |-> FALSE, proj |-> FALSE, twins |-> <<>>, responsive |-> <<>>, searching |-> <<>>]
 
 Nd(e) == S[e.node]
 Upd(e, r) == S' = [S EXCEPT ![e.node] = r]
 FSet(f, k, v) == [x \in DOMAIN f \cup {k} |-> IF x = k THEN v ELSE f[x]]
 FGet(f, k, d) == IF k \in DOMAIN f THEN f[k] ELSE d
 
+\* traces recorded in projection mode (C01: many virtual hours) carry no table dumps: the mechanism predictions are off there
+MDrift(name, ln, cond) == IF G.proj THEN TRUE ELSE Drift(name, ln, cond)
 PlanFor(n) == FGet(G.plan, n, <<>>)
 \* When searches run, a contact can be asked by a search while its answer to a refresh request is still under way; the code counts
 \* requests when they are SENT, so such a contact is momentarily classified bad until the answer arrives (less than one round trip).
@@ -133,8 +136,8 @@ ReplyChecks(nd, m, src, rep, ln) ==
        THEN /\ Chk("C05", "reply-carries-own-id", ln, Has(rep.m, "r") /\ rep.m.r.idl = 20 /\ rep.m.r.id = nd.id)
             /\ (m.q \in {"ping", "find_node", "announce_peer"} =>
                     Chk("C05", "no-token-no-values-outside-get_peers", ln, rep.m.r.tokenl = -1 /\ rep.m.r.nvalues = 0))
-            /\ (m.q = "find_node" => Drift("find_node-node-list-order", ln, NodeListsExact(nd, m, m.a.target, rep.m.r)))
-            /\ (m.q = "get_peers" => Drift("get_peers-node-list-order", ln, NodeListsExact(nd, m, m.a.info_hash, rep.m.r)))
+            /\ (m.q = "find_node" => MDrift("find_node-node-list-order", ln, NodeListsExact(nd, m, m.a.target, rep.m.r)))
+            /\ (m.q = "get_peers" => MDrift("get_peers-node-list-order", ln, NodeListsExact(nd, m, m.a.info_hash, rep.m.r)))
             /\ (m.q = "find_node" => Chk("C09", "find_node-node-list", ln, NodeListsOK(nd, m, m.a.target, rep.m.r))
                                      /\ Chk("C05", "find_node-families", ln, (4 \notin WantFams(nd, m) => Len(rep.m.r.nodes) = 0) /\ (6 \notin WantFams(nd, m) => Len(rep.m.r.nodes6) = 0)))
             /\ (m.q = "get_peers" =>
@@ -178,7 +181,8 @@ FitsOK(m, ln) ==
 
 \* ------------------------------------------------------------------ lookups (C02 C03 C04 C16 C19)
 NewLookup(e) == [target |-> e.target, announce |-> e.announce, at |-> now, q |-> <<>>, toks |-> <<>>, budget |-> <<>>,
-                 nann |-> 0, anndst |-> {}, ihx |-> "?", fresh |-> TRUE, done |-> FALSE, doneAt |-> -1, eg |-> -1, consumed |-> 0, told |-> {}, sid |-> -1, failed |-> 0]
+                 nann |-> 0, anndst |-> {}, ihx |-> "?", fresh |-> TRUE, done |-> FALSE, doneAt |-> -1, eg |-> -1, consumed |-> 0, told |-> {}, sid |-> -1, failed |-> 0,
+                 mech |-> [on |-> FALSE, n |-> 0, why |-> "not-started", amb |-> FALSE]]
 BagAdd(b, xs) == LET S0 == {xs[i] : i \in 1..Len(xs)} IN
     [x \in DOMAIN b \cup S0 |-> FGet(b, x, 0) + Cardinality({i \in 1..Len(xs) : xs[i] = x})]
 BagHas(b, x) == x \in DOMAIN b /\ b[x] > 0
@@ -354,6 +358,10 @@ ClosedStep(e) ==
     /\ UNCHANGED G
 
 EndStep(e) ==
+    /\ \A n \in DOMAIN S : S[n].mechn > 0 =>
+          PrintT(<<"MECHSTATS", S[n].mechn, Cardinality(DOMAIN S[n].lk),
+                   Cardinality({a \in DOMAIN S[n].lk : S[n].lk[a].mech.why = "drift"}),
+                   Cardinality({a \in DOMAIN S[n].lk : S[n].lk[a].mech.amb})>>)
     /\ \A n \in DOMAIN S : Chk("C15", "every-waiter-is-told-within-11-minutes-of-a-contact-becoming-responsive", l, WaitersOK(n))
     /\ \A n \in DOMAIN S :
           /\ Chk("C04", "every-search-ends", l, S[n].pendSearch = <<>> /\ DOMAIN S[n].sidAid \subseteq DOMAIN S[n].closed)
@@ -456,7 +464,8 @@ HStepStep(e) ==
     /\ (pfx # "" /\ pfx \in DOMAIN nd0.lk /\ e.tid \in DOMAIN nd0.lk[pfx].q) =>
             Chk("C04", "a-query-times-out-1.5s-after-it-was-sent", l,
                 now - nd0.lk[pfx].q[e.tid].at >= 1500 /\ now - nd0.lk[pfx].q[e.tid].at <= 1500 + SLACK)
-    /\ Upd(e, [nd EXCEPT !.step = [open |-> TRUE, kind |-> e.kind, what |-> e.what, m |-> m, src |-> nd0.psrc, sends |-> <<>>, pre |-> nd0.t],
+    /\ Upd(e, [nd EXCEPT !.step = [open |-> TRUE, kind |-> e.kind, what |-> e.what, m |-> m, src |-> nd0.psrc, sends |-> <<>>, pre |-> nd0.t,
+                                   tid |-> IF Has(e, "tid") THEN e.tid ELSE ""],
                          !.pend = NoMsg])
     /\ UNCHANGED G
 
@@ -474,23 +483,6 @@ NeverLost(n, nd, tt) ==
         live == {SlotC(tt, p).addr : p \in RLiveSlots(tt, now)} IN
     \A i \in 1..Len(plan) : (plan[i].mode = "Answer" /\ plan[i].addr \in nd.admitted) => (plan[i].addr \in live \/ Excused(nd, plan[i].addr))
 
-\* the mechanism's prediction of the first round of a search (lookup.rs TableLookup::new): among the (at most 8) good nodes the
-\* table walk hands out first, the ALPHA = 4 closest to the target -- compared with the observed first get_peers as DRIFT only
-RECURSIVE ClosestK(_, _, _, _)
-ClosestK(cands, target, k, acc) ==
-    IF k = 0 \/ cands = {} THEN acc
-    ELSE LET best == CHOOSE c \in cands : \A d \in cands : c = d \/ ~Closer160(target, d.id, c.id) IN
-         ClosestK(cands \ {best}, target, k - 1, acc \cup {best.addr})
-PredInitial(nd, tt, target) ==
-    LET walk == SelectSeq(Closest([tt EXCEPT !.self = nd.id], target, now), LAMBDA c : Status(c, now) = GOOD)
-        first8 == {walk[i] : i \in 1..Min2(8, Len(walk))} IN
-    ClosestK(first8, target, 4, {})
-FirstRoundDrift(nd, pre, ln) ==
-    \A aid \in DOMAIN nd.lk :
-        nd.lk[aid].fresh =>
-            Drift("first-round-of-a-search", ln,
-                  {nd.lk[aid].q[t].dst : t \in {x \in DOMAIN nd.lk[aid].q : nd.lk[aid].q[x].at = nd.lk[aid].at}} = PredInitial(nd, pre, nd.lk[aid].target))
-
 \* the mechanism's prediction of a refresh round (refresh.rs continue_refresh): the first REFRESH_CONCURRENCY = 4 questionable, not
 \* recently requested contacts of the table walk towards the id with bit `cursor` flipped -- compared as DRIFT only
 PredRefresh(nd, tt, cursor) ==
@@ -500,7 +492,55 @@ PredRefresh(nd, tt, cursor) ==
 RefreshDrift(nd, st, pre, ln) ==
     (st.open /\ "cursor" \in DOMAIN st) =>
         LET fn == SelectSeq(st.sends, LAMBDA x : x.m.y = "q" /\ x.m.q = "find_node") IN
-        Drift("refresh-round-targets", ln, [i \in 1..Len(fn) |-> fn[i].dst] = PredRefresh(nd, pre, st.cursor))
+        MDrift("refresh-round-targets", ln, [i \in 1..Len(fn) |-> fn[i].dst] = PredRefresh(nd, pre, st.cursor))
+
+
+\* ------------------------------------------------------------------ the search mechanism, datagram by datagram (DRIFT only)
+\* LookupCore (the same operators Lookup.tla is model-checked with) is run alongside every search: from the table at the start
+\* of the step that starts it, and then from every answer and every time-out handed to the handler, it predicts the destination
+\* of every get_peers query, in order, the moment the end-game starts, and the destinations of the announces.  A mismatch is
+\* DRIFT (the model is not the code, or the code changed) -- never a violation; the prediction of that search then stops.
+QueriesOf(st, aid, q) ==
+    LET s == SelectSeq(st.sends, LAMBDA x : x.m.y = "q" /\ x.m.pfx = aid /\ x.m.q = q) IN
+    [i \in 1..Len(s) |-> [t |-> s[i].m.t, ok |-> s[i].ok, dst |-> s[i].dst]]
+Addrs(hs) == [i \in 1..Len(hs) |-> hs[i].addr]
+Dsts(A) == [i \in 1..Len(A) |-> A[i].dst]
+MechOff(mech, why) == [on |-> FALSE, n |-> mech.n, why |-> why, amb |-> mech.amb]
+\* the result: the mechanism state after the step, whether a prediction was made and whether it failed
+MechStart(nd, st, pre, lk, aid) ==
+    LET walk == SelectSeq(Closest([pre EXCEPT !.self = nd.id], lk.target, now), LAMBDA c : Status(c, now) = GOOD)
+        N == LC!New(Handles(walk), lk.target)
+        A == QueriesOf(st, aid, "get_peers")
+        n == Len(N.picks)
+        same == Addrs([i \in 1..n |-> N.picks[i].h]) = Dsts(A) IN
+    IF same THEN LET st1 == LC!AfterRound(N.st, N.picks, [i \in 1..n |-> A[i].t], [i \in 1..n |-> A[i].ok]) IN
+                 \* nothing could be asked: lookup.completed(), the search finishes in the same step (and has nobody to announce to)
+                 [mech |-> IF DOMAIN st1.active = {} THEN [on |-> FALSE, n |-> 1, why |-> "finished", amb |-> FALSE] ELSE st1 @@ [on |-> TRUE, n |-> 1, why |-> ""],
+                  made |-> TRUE, bad |-> FALSE]
+    ELSE [mech |-> MechOff(lk.mech, "drift"), made |-> TRUE, bad |-> TRUE]
+MechDrive(mech, st1, picks, A) ==
+    LET D == LC!Drive(st1, picks, A) IN
+    IF Addrs(D.asked) = Dsts(A) THEN [mech |-> [D.st EXCEPT !.n = @ + 1], made |-> TRUE, bad |-> FALSE]
+    ELSE [mech |-> MechOff(mech, "drift"), made |-> TRUE, bad |-> TRUE]
+MechNext(nd, st, pre, aid) ==
+    LET lk == nd.lk[aid]  mech == lk.mech  m == st.m IN
+    IF lk.fresh THEN MechStart(nd, st, pre, lk, aid)
+    ELSE IF ~mech.on THEN [mech |-> mech, made |-> FALSE, bad |-> FALSE]
+    ELSE IF st.kind = "incoming" /\ m.y = "r" /\ Has(m, "r") /\ m.tl = 8 /\ m.pfx = aid /\ m.r.idl = 20 /\ ~lk.done THEN
+        LET R == LC!OnResponse(mech, m.t, [id |-> m.r.id, addr |-> st.src], Handles(Named(nd, m)), m.r.tokenl >= 0) IN
+        MechDrive(mech, R.st, R.picks, QueriesOf(st, aid, "get_peers"))
+    ELSE IF st.kind = "timer" /\ st.what = "LookupTimeout" /\ SubSeq(st.tid, 1, 10) = aid /\ ~lk.done THEN
+        MechDrive(mech, LC!OnTimeout(mech, st.tid), <<>>, QueriesOf(st, aid, "get_peers"))
+    ELSE IF st.kind = "timer" /\ st.what = "LookupEndGame" /\ SubSeq(st.tid, 1, 10) = aid THEN
+        LET want == IF lk.announce THEN Addrs(LC!Announces(mech)) ELSE <<>> IN
+        [mech |-> MechOff([mech EXCEPT !.n = @ + 1], "finished"), made |-> TRUE, bad |-> want # Dsts(QueriesOf(st, aid, "announce_peer"))]
+    ELSE [mech |-> mech, made |-> FALSE, bad |-> FALSE]
+\* the searches a step can concern
+MechAids(nd, st) ==
+    IF ~st.open THEN {}
+    ELSE {a \in DOMAIN nd.lk : nd.lk[a].fresh}
+         \cup (IF st.kind = "incoming" /\ st.m.y = "r" /\ Has(st.m, "pfx") THEN {st.m.pfx} \cap DOMAIN nd.lk ELSE {})
+         \cup (IF st.kind = "timer" /\ st.tid # "" /\ Len(st.tid) >= 10 THEN {SubSeq(st.tid, 1, 10)} \cap DOMAIN nd.lk ELSE {})
 
 TableChecks(nd, tt, ln) ==
     /\ Chk("C11", "a-contact-that-always-answers-is-never-lost (every table dump)", ln, NeverLost(Rec[ln].node, nd, tt))
@@ -530,11 +570,14 @@ HEndStep(e) ==
     /\ (isIncoming /\ m.y = "q") => Chk("C12", "a-query-never-admits-its-sender", l, RLiveHandles(post, now) \subseteq RLiveHandles(pre, now))
     /\ (isIncoming /\ Unsolicited(nd0, m)) => Chk("C12", "unsolicited-response-changes-no-contacts", l, RLiveHandles(post, now) = RLiveHandles(pre, now))
     /\ (Len(e.ch[2]) > 0 => TableChecks(nd0, post, l))
-    /\ FirstRoundDrift(nd0, pre, l)
     /\ RefreshDrift(nd0, st, pre, l)
+    /\ \A a \in MechAids(nd0, st) : MDrift("search-queries-and-announces-as-LookupCore-predicts", l, ~MechNext(nd0, st, pre, a).bad)
     /\ Chk("C14", "node-keeps-running-while-handles-exist", l, e.running \/ ~st.open)
     /\ Upd(e, [nd2 EXCEPT !.t = post, !.step = [open |-> FALSE],
-                         !.lk = [a \in DOMAIN @ |-> IF @[a].fresh THEN [@[a] EXCEPT !.fresh = FALSE] ELSE @[a]]])
+                         !.lk = LET aids == MechAids(nd0, st) IN
+                                [a \in DOMAIN @ |-> IF a \in aids THEN [@[a] EXCEPT !.fresh = FALSE, !.mech = MechNext(nd0, st, pre, a).mech]
+                                                   ELSE @[a]],
+                         !.mechn = @ + Cardinality({a \in MechAids(nd0, st) : MechNext(nd0, st, pre, a).made})])
     /\ UNCHANGED G
 
 WorkerTable(e) ==
@@ -544,7 +587,7 @@ WorkerTable(e) ==
     /\ UNCHANGED G
 
 Step(e) ==
-    CASE e.ev = "Reset" -> S' = <<>> /\ G' = [universe |-> <<>>, plan |-> <<>>, coop |-> FALSE, twins |-> <<>>, responsive |-> <<>>, searching |-> <<>>]
+    CASE e.ev = "Reset" -> S' = <<>> /\ G' = [universe |-> <<>>, plan |-> <<>>, coop |-> FALSE, proj |-> FALSE, twins |-> <<>>, responsive |-> <<>>, searching |-> <<>>]
       [] e.ev = "NodeCfg" -> S' = FSet(S, e.node, NodeInit(e)) /\ UNCHANGED G
       [] e.ev = "NodeStart" -> Upd(e, [Nd(e) EXCEPT !.id = e.id, !.usedpfx = @ \cup {e.refresh_aid}, !.t.self = e.id]) /\ UNCHANGED G
       [] e.ev = "Send" -> SendStep(e)
@@ -554,7 +597,7 @@ Step(e) ==
       [] e.ev = "HEnd" -> HEndStep(e)
       [] e.ev \in {"BootState", "BootMsg", "BootSent"} -> IF Has(e, "ch") THEN WorkerTable(e) ELSE UNCHANGED <<S, G>>
       [] e.ev = "Universe" -> G' = [G EXCEPT !.universe = e.nodes] /\ UNCHANGED S
-      [] e.ev = "Scenario" -> G' = [G EXCEPT !.coop = e.coop] /\ UNCHANGED S
+      [] e.ev = "Scenario" -> G' = [G EXCEPT !.coop = e.coop, !.proj = Has(e, "projection") /\ e.projection] /\ UNCHANGED S
       [] e.ev = "Twin" -> G' = [G EXCEPT !.twins = Append(@, [node |-> e.node, a |-> e.a, b |-> e.b])] /\ UNCHANGED S
       [] e.ev = "ApiSearch" -> ApiSearchStep(e)
       [] e.ev = "LookupQueued" -> LookupQueuedStep(e)
